@@ -842,3 +842,103 @@ def run_sort_functions(repo, libfuncs, rule='E6l'):
             if ids != want:
                 problems.append(('sort_data', 'result', f'{desc} gives rows {ids}; the stable sort by the keys (value comparison, reversed for descending keys) gives {want}'))
     return counts, problems
+
+
+# ------------------------------------------------------------------------------------------------ datetimeNew
+class DatetimeInterp(LibInterp):
+    """calendar.monthrange / isleap and the datetime constructor are exact host models (integers only: a float raises TypeError like the host);
+    a constructed datetime is the record ('datetime', y, m, d, h, mi, s, us)"""
+
+    def host_function(self, name, args, e):
+        import calendar as _cal
+        import datetime as _dt
+        if name in ('calendar.monthrange', 'calendar.isleap', 'calendar.leapdays') and all(isinstance(a, (int, float)) for a in args):
+            if any(isinstance(a, float) or isinstance(a, bool) for a in args):
+                raise RaiseSig('TypeError', ('integer argument expected, got float',), e)
+            try:
+                r = getattr(_cal, name.split('.')[1])(*args)
+            except Exception as exc:
+                raise RaiseSig(type(exc).__name__, (str(exc),), e)
+            return tuple(r) if isinstance(r, tuple) else r
+        if name in ('datetime.datetime', 'datetime.date') and all(isinstance(a, (int, float)) for a in args):
+            if any(isinstance(a, float) for a in args):
+                raise RaiseSig('TypeError', ("'float' object cannot be interpreted as an integer",), e)
+            try:
+                d = (_dt.datetime if name.endswith('datetime') else _dt.date)(*args)
+            except Exception as exc:
+                raise RaiseSig(type(exc).__name__, (str(exc),), e)
+            if isinstance(d, _dt.datetime):
+                return Sym('val', ('datetime', d.year, d.month, d.day, d.hour, d.minute, d.second, d.microsecond), True, 'datetime')
+            return Sym('val', ('date', d.year, d.month, d.day), True, 'date')
+        return super().host_function(name, args, e)
+
+
+def ref_datetime_new(y, mo, d, h=0, mi=0, s=0, ms=0):
+    """proleptic-Gregorian calendar arithmetic on the components (month overflow carries into the year, everything else is a duration from the 1st of the month)"""
+    import datetime as _dt
+    y2, mo2 = y + (mo - 1) // 12, (mo - 1) % 12 + 1
+    total_ms = ((h * 60 + mi) * 60 + s) * 1000 + ms
+    days, rem = divmod(total_ms, 86400000)
+    ordinal = _dt.date(y2, mo2, 1).toordinal() + (d - 1) + days
+    dd = _dt.date.fromordinal(ordinal)
+    hh, rem = divmod(rem, 3600000)
+    mm, rem = divmod(rem, 60000)
+    ss, msec = divmod(rem, 1000)
+    return ('datetime', dd.year, dd.month, dd.day, hh, mm, ss, msec * 1000)
+
+
+def datetime_new_samples(tier='quick'):
+    out = []
+    months = [-13, -12, -1, 0, 1, 2, 3, 7, 12, 13, 14, 25]
+    days = [-800, -366, -365, -31, -1, 0, 1, 28, 29, 30, 31, 32, 59, 60, 61, 365, 366, 367, 500, 731, 800, 1100]
+    for y in (2023, 2024, 1900, 2000):
+        for mo in months:
+            for d in days:
+                out.append((y, mo, d))
+    for d in (-10000, 10000, -9999, 5000):
+        for mo in (1, 3, 7, 12):
+            out.append((2023, mo, d))
+    for date in ((2024, 2, 28), (2023, 12, 31), (2023, 1, 1)):
+        for h in (-25, -24, -1, 0, 23, 24, 49):
+            for mi in (-61, -1, 0, 59, 60):
+                for s in (-1, 0, 59, 60, 3600):
+                    for ms in (-1, 0, 999, 1000, 86400000, -1500):
+                        out.append(date + (h, mi, s, ms))
+    out += [(2024, 2, 28, 49), (2024, 12, 31, 23, 59, 60), (2024, 12, 31, 23, 59, 59, 1000), (2023, 3, 1, -1), (2023, 1, 1, 0, 0, -1), (2023, 1, 1, 0, 0, 0, -1)]
+    if tier != 'thorough':
+        out = out[::5] + out[-6:]
+    return out
+
+
+def run_datetime_new(repo, libfuncs, tier='quick', rule='E6l'):
+    """datetimeNew on concrete component lists, each spelled with host ints and with floats -> (n runs, problems [(kind, message)])"""
+    lf = libfuncs.get('datetimeNew')
+    if lf is None:
+        raise Unrecognised(rule, 'datetimeNew is not registered', None)
+    it = DatetimeInterp(repo, lf.mod, rule)
+    problems, n = [], 0
+    for comp in datetime_new_samples(tier):
+        try:
+            want = ref_datetime_new(*comp)
+        except (ValueError, OverflowError):
+            continue
+        for spell in (int, float):
+            n += 1
+            args = AList([spell(c) for c in comp])
+            got = it.run(lf.func, [args, ADict({})])
+            desc = f'datetimeNew({", ".join(repr(spell(c)) for c in comp)})'
+            if got[0] == 'raise':
+                problems.append(('raise' if spell is int else 'spelling', f'{desc} raises {got[1]}{tuple(got[2])!r}; calendar arithmetic gives {_fmt_dt(want)}'))
+                continue
+            r = got[1]
+            if not (isinstance(r, Sym) and r.kind == 'val' and isinstance(r.args[0], tuple)):
+                raise Unrecognised(rule, f'{desc} evaluates to {r!r}, not to a constructed datetime', lf.mod.rel)
+            if r.args[0] != want:
+                problems.append(('calendar' if spell is int else 'spelling', f'{desc} gives {_fmt_dt(r.args[0])}; proleptic-Gregorian calendar arithmetic on the components gives {_fmt_dt(want)}'))
+    return n, problems
+
+
+def _fmt_dt(t):
+    if t[0] == 'date':
+        return f'{t[1]:04d}-{t[2]:02d}-{t[3]:02d}'
+    return f'{t[1]:04d}-{t[2]:02d}-{t[3]:02d}T{t[4]:02d}:{t[5]:02d}:{t[6]:02d}.{t[7] // 1000:03d}' + (f'(+{t[7] % 1000}us)' if t[7] % 1000 else '')
